@@ -613,6 +613,75 @@ def install(M):
     pat(r'^<f64 as From<(u8|u16|u32|i32)>>::from$', lambda I, v: float(v) if isinstance(v, int) else I.int_to_float(v))
     pat(r'^<(usize|u64|u32) as From<(u8|u16|u32|bool)>>::from$', lambda I, v: (int(v) if isinstance(v, (int, bool)) else v))
 
+    def f_abs(I, x):
+        if isinstance(x, float):
+            return abs(x)
+        if isinstance(x, SymF):
+            return SymF(z3.If(x.e >= 0, x.e, -x.e), x.den)
+        return SymFP(z3.fpAbs(x.t))
+    reg('core::f64::<impl f64>::abs', f_abs)
+
+    def f_powi(I, x, n):
+        conc(I, n, 'powi exponent')
+        if n < 0 or n > 4:
+            raise Unsupported('powi exponent %d' % n)
+        r = 1.0
+        for _ in range(n):
+            r = I.fbinop('Mul', r, x) if not (isinstance(r, float) and r == 1.0) else x
+        return r
+    reg('core::f64::<impl f64>::powi', f_powi)
+
+    def u_pow(I, x, n):
+        conc(I, n, 'pow exponent')
+        r = 1
+        for _ in range(n):
+            r = r * x if not is_sym(x) else (x if isinstance(r, int) and r == 1 else r * x)
+        return r
+    reg('core::num::<impl usize>::pow', u_pow)
+
+    def opt_as_ref(I, o):
+        d = deref(o)
+        return Some(Ptr(d.f, 0)) if d.v == 1 else NONE()
+    pat(r'^Option::(as_ref|as_mut|as_deref)$', opt_as_ref)
+
+    def opt_zip(I, a, b):
+        return Some(Agg('()', [a.f[0], b.f[0]])) if a.v == 1 and b.v == 1 else NONE()
+    pat(r'^Option::zip$', opt_zip)
+
+    def s_windows(I, s, n):
+        l, a, b = as_list(s)
+        conc(I, n, 'window size')
+        return ListIt([Slice(l, i, i + n) for i in range(a, b - n + 1)])
+    pat(r'^core::slice::<impl \[.*\]>::windows$', s_windows)
+
+    def v_retain(I, v, clo):
+        d = deref(v)
+        d.l[:] = [x for k, x in enumerate(list(d.l)) if I.branch(I.call_closure(Ptr([clo], 0), [Ptr(d.l, k)]))]
+    pat(r'^Vec::retain$', v_retain)
+
+    def split_ws(I, s):
+        s = as_str(s)
+        out = []
+        cur = None
+        off = 0
+        T = M.tables
+        for cp, nb in s.chars():
+            w = (T.lookup('whitespace', cp) == 1) if not is_sym(cp) else I.branch(T.pred('whitespace', 1, cp, *cp_class(I, cp)))
+            if w:
+                if cur is not None:
+                    out.append(s.sub(cur, off))
+                    cur = None
+            elif cur is None:
+                cur = off
+            off += nb
+        if cur is not None:
+            out.append(s.sub(cur, off))
+        return ListIt(out)
+    reg('core::str::<impl str>::split_whitespace', split_ws)
+    pat(r'^<&str as Into<String>>::into$', lambda I, s: OString(as_str(s).chars()))
+    pat(r'^<String as From<&String>>::from$', lambda I, s: OString(as_str(s).chars()))
+    pat(r'^<String as From<Cow<.*>>>::from$', lambda I, s: OString(as_str(s).chars()))
+
     # ---------------- mem
     def mem_replace(I, p, v):
         old = p.get()
